@@ -13,7 +13,11 @@ func init() {
 	ops["ET"] = func(a []string) string {
 		t := time.Unix(atoi64(a[0]), atoi64(a[1])).In(time.FixedZone("z", int(atoi64(a[2]))))
 		et := protocol.EventTime{Time: t}
+		// the destination is whatever memory the caller has: not necessarily zeroed
 		b := make([]byte, et.Len())
+		for i := range b {
+			b[i] = 0xa5
+		}
 		if err := et.MarshalBinaryTo(b); err != nil {
 			return "err"
 		}
